@@ -290,16 +290,7 @@ class SMUserList(UserList, ABC):
         """
 
         if isinstance(i, slice):
-            if i.stop is None:
-                # stop not given
-                end = len(self)
-            elif i.stop < 0:
-                # stop is negative, -
-                end = i.stop + len(self) + 1
-            else:
-                # stop is positive, use it directly
-                end = i.stop
-            return self.__class__([self.data[k] for k in range(i.start or 0, end, i.step or 1)])
+            return self.__class__([self.data[k] for k in range(*i.indices(len(self)))])
         else:
             return self.__class__(self.data[i])
         
